@@ -74,6 +74,7 @@ MOTIFS = [
     [['create', 'P', False, 1, 1], ['get', 'T', False, 1], ['rollback'], ['begin'], ['set', 1, 0, 5], ['commit', False], ['read', 0, 0]],
     [['create', 'P', False, 1, 1], ['get', 'T', False, 1], ['set', 1, 0, 5], ['expire', 1], ['commit', False], ['read', 0, 0]],
     [['create', 'P', False, 1, 1], ['get', 'T', False, 1], ['rollback'], ['begin'], ['set', 1, 0, 5], ['rollback'], ['begin'], ['read', 1, 0]],
+    [['create', 'P', False, 1, 1], ['get', 'T', False, 1], ['rollback'], ['begin'], ['read', 1, 0], ['set', 1, 0, 5], ['rollback'], ['begin'], ['read', 1, 0]],
     [['create', 'P', False, 1, 1], ['get', 'T', False, 1], ['set', 1, 0, 2], ['commit', False], ['set', 0, 0, 5], ['set', 1, 0, 7], ['commit', False], ['read', 0, 0]],
     [['create', 'P', False, 1, 1], ['create', 'P', False, 2, 2], ['get', 'T', False, 1], ['destroy', 2], ['commit', False], ['read', 0, 0],
      ['get', 'T', False, 2], ['set', 3, 0, 9], ['commit', False], ['read', 1, 0]],
@@ -647,7 +648,12 @@ def judge(k, op, before, cur, created_in_tx):
                                 expected=want, actual=out)
             elif out != ['ret', ['val', cached(v0)[op[2]]]]:
                 return fail(k, op, 'a read does not return the cached attribute', kind='harness_assumption')
+    # ---- the write lock goes with the uncommitted changes: without them the parent connection can write
+    if side == 'P' and out == ['exc', 'EOperational'] and before['pending'] is None:
+        return fail(k, op, 'a parent-side write was refused although the transaction holds no uncommitted change', kind='lock_leak')
     # ---- commit: the database takes the transaction's view; no parent-side instance is left stale
+    if t == 'commit' and not before['tobs'] and op[1] and out[0] == 'ret' and not (cur['tobs'] and cur['pending'] is None):
+        return fail(k, op, 'commit(close=True) did not finish the transaction', kind='commit_close')
     if t == 'commit' and not before['tobs']:
         want = before['pending'] if before['pending'] is not None else before['committed']
         if cur['committed'] != want:
@@ -730,7 +736,9 @@ def classify(case, obs, f):
     if not v[5]:
         return 'commit_misses_purged_parent_instance' if own == 0 else 'rollback_misses_purged_instance'
     if v[1] not in walked:
-        return 'commit_forgets_uncached_row' if own == 0 else None
+        # the finding is about rows UPDATED through an instance the transaction's cache has lost; a row deleted in the
+        # transaction must be in _deletedCache, so a miss there is something else
+        return 'commit_forgets_uncached_row' if own == 0 and f.get('row') is not None else None
     if not v[3] and len(cached(v)) < 2:
         return 'expire_raises_on_attributeless_instance'
     return None
